@@ -27,7 +27,7 @@ theorem parseSliceIndexOrTypeInstBody_go_spec : ∀ fuel acc, (hacc : IdxOK acc 
     T src Tr (parseSliceIndexOrTypeInstBody.go r fuel acc) (fun l _ => IdxOK l) := by
   intro fuel
   induction fuel with
-  | zero => intro acc _; unfold parseSliceIndexOrTypeInstBody.go; exact T.throw _ rfl
+  | zero => intro acc _; unfold parseSliceIndexOrTypeInstBody.go; exact T.throw _ (fun _ _ => trivial)
   | succ n ih =>
     intro acc hacc
     unfold parseSliceIndexOrTypeInstBody.go
